@@ -5,7 +5,7 @@
    only: slot s of row i of the buffer holds cell (i, s + shift(i-1)) of the specification matrix. *)
 From Coq Require Import ZArith Bool Lia List.
 From DV Require Import Prelude Cost Grid Dtw DtwSpec DtwProps Engines CWps CFill CExpand CFillSim CLang CDistTie CDistSpec
-  CTraceSpec Prune PyDistPrune CWpsCanon CWpsCanonEu CWpsKernel CWpsValue CWpsSpec CWpsSpecEu CExpW CWpsPrune CWpsSpecB CWpsValueB.
+  CTraceSpec Prune PyDistPrune CWpsCanon CWpsCanonEu CWpsKernel CWpsValue CWpsSpec CWpsSpecEu CExpW CWpsPrune CWpsSpecB CWpsSpecBEu CWpsValueB.
 From DVGen Require Import Gen_cwps Gen_cfill Gen_cwpsk Gen_cexpw.
 Import ListNotations.
 Open Scope Z_scope.
@@ -337,4 +337,58 @@ Proof.
     pose proof (shift_nonneg l1 l2 window ltac:(lia) ltac:(lia) Hwin (Z.of_nat i - 1)) as Hsh.
     rewrite wps_matrix_Mfun; [reflexivity| unfold sr; lia | unfold sc; lia].
 Qed.
+(* the Euclidean twin under a bound *)
+Hypothesis Hp : 0 <= p.
+Hypothesis Hpsi : (psi_1b uab < length s1)%nat \/ (psi_2e uab < length s2)%nat.
+
+Lemma pen_ok_uab : pen_ok uab.
+Proof. unfold pen_ok, c_to_u, cs_of; cbn. exact Hp. Qed.
+
+Lemma end_valueB_is_dtw_value_eu : end_valueB uab s1 s2 (psi_1e uab) (psi_2e uab) = dtw_value uab s1 s2.
+Proof.
+  rewrite dtw_value_Mfun. unfold end_valueB, end_rows, end_cols, end_cands, sr, sc.
+  rewrite map_app, cmin_list_app, !map_map. reflexivity.
+Qed.
+
+Theorem c_wps_eu_kernel_bounded (B : cost) cub1 cub2 wps0 keep :
+  let W := cw_width l1 l2 window in
+  Z.of_nat (length wps0) = (l1 + 1) * W ->
+  exists wps',
+    c_dtw_warping_paths_ndim_euclidean (cw_shift l1 l2 window) cub1 cub2 wps0 (concat s1) l1 (concat s2) l2 true keep false (Z.of_nat d)
+      ((l1 + 1) * W) (c_parts_ldiff l1 l2) (c_parts_ldiffr l1 l2 (c_parts_ldiff l1 l2))
+      (c_parts_ldiffc l1 l2 (c_parts_ldiff l1 l2)) (c_parts_window l1 l2 window) W
+      (c_parts_ri1 l1 (c_parts_overlap_left l1 (c_parts_ldiffr l1 l2 (c_parts_ldiff l1 l2)) (c_parts_window l1 l2 window))
+                      (c_parts_overlap_right l1 (c_parts_ldiffr l1 l2 (c_parts_ldiff l1 l2)) (c_parts_window l1 l2 window)))
+      (c_parts_ri2 l1 (c_parts_overlap_left l1 (c_parts_ldiffr l1 l2 (c_parts_ldiff l1 l2)) (c_parts_window l1 l2 window)))
+      (c_parts_ri3 l1 (c_parts_overlap_left l1 (c_parts_ldiffr l1 l2 (c_parts_ldiff l1 l2)) (c_parts_window l1 l2 window))
+                      (c_parts_overlap_right l1 (c_parts_ldiffr l1 l2 (c_parts_ldiff l1 l2)) (c_parts_window l1 l2 window)))
+      (adj_max_step uab) B (Fin (adj_penalty uab)) false (Z.of_nat (psi_1b uab)) (Z.of_nat (psi_1e uab))
+      (Z.of_nat (psi_2b uab)) (Z.of_nat (psi_2e uab)) false
+    = (RPlain (bounded B (dtw_value uab s1 s2)), wps', true) /\
+    Z.of_nat (length wps') = (l1 + 1) * W /\
+    forall (i : nat) (s : Z), Z.of_nat i <= l1 -> 0 <= s < W ->
+      s + cw_shift l1 l2 window (Z.of_nat i - 1) <= l2 ->
+      (s + cw_shift l1 l2 window (Z.of_nat i - 1) = 0 -> Z.of_nat i <= cw_ri2 l1 l2 window) ->
+      Q B (aget wps' (Z.of_nat i * W + s)) (mget (wps_matrix uab s1 s2) i (Z.to_nat (s + cw_shift l1 l2 window (Z.of_nat i - 1)))).
+Proof.
+  intros W HL.
+  destruct (c_wps_eu_kernel_runs_B uab s1 s2 B H1 H2 pen_ok_uab Hpsi window Hwin cell_outside_band_eu (Z.of_nat d) (concat s1) (concat s2)
+              (adj_max_step uab) cell_on_band_eu ltac:(lia) ltac:(lia) (cw_shift l1 l2 window) cub1 cub2 wps0 true keep false
+              (Z.of_nat (psi_1e uab)) (Z.of_nat (psi_2e uab)) HL)
+    as (wD & E & HG).
+  rewrite Nat2Z.id in HG.
+  pose proof (tail_value_B_eu uab s1 s2 B H1 H2 window Hwin cell_outside_band_eu wD HG (psi_1e uab) (psi_2e uab)) as ET.
+  exists wD. fold W in ET, E. rewrite E, ET. rewrite end_valueB_is_dtw_value_eu. split; [reflexivity|].
+  destruct HG as (HLen & Hrows & _). fold W in HLen. split; [exact HLen|].
+  intros i s Hi Hs Hcol Hb.
+  pose proof (Hrows i ltac:(lia) s Hs Hcol Hb) as HH. unfold rowf in HH. fold W in HH.
+  pose proof (shift_nonneg l1 l2 window ltac:(lia) ltac:(lia) Hwin (Z.of_nat i - 1)) as Hsh.
+  rewrite wps_matrix_Mfun; [exact HH| unfold sr; lia | unfold sc; lia].
+Qed.
+
+Lemma c_wps_eu_use_pruning_is_a_bound shiftf cub1 cub2 wps0 f1 zl1 f2 zl2 rdtw keep pneg nd wlen a1 a2 a3 a4 a5 a7 a8 a9 ms md pn zp1b zp1e zp2b zp2e :
+  c_dtw_warping_paths_ndim_euclidean shiftf cub1 cub2 wps0 f1 zl1 f2 zl2 rdtw keep pneg nd wlen a1 a2 a3 a4 a5 a7 a8 a9 ms md pn false zp1b zp1e zp2b zp2e true
+  = c_dtw_warping_paths_ndim_euclidean shiftf cub1 cub2 wps0 f1 zl1 f2 zl2 rdtw keep pneg nd wlen a1 a2 a3 a4 a5 a7 a8 a9 ms
+      (if nd =? 1 then cub1 else cub2) pn false zp1b zp1e zp2b zp2e false.
+Proof. reflexivity. Qed.
 End FinalEu.
